@@ -37,9 +37,11 @@ type GCRace struct {
 	Park  int `json:"park"`  // gcParkNames
 	BReqs int `json:"breqs"` // how many requests B completes while C's is parked (1: push only the conflicting change; 2: also report R as seen; 3: once more)
 	Extra int `json:"extra"` // extra synced edits of A before the episode (clock skew)
+	Snap  int `json:"snap"`  // != 0: the project's snapshot threshold; after C has seen R, A makes Snap+1 more edits so that C's parked request is answered by a snapshot (server-side GC at build time)
 }
 
-var gcParkNames = []string{"UpdateMinVersionVector/before", "FindChangeInfosBetweenServerSeqs/before", "FindChangeInfosBetweenServerSeqs/after", "UpdateClientInfoAfterPushPull/before"}
+var gcParkNames = []string{"UpdateMinVersionVector/before", "FindChangeInfosBetweenServerSeqs/before", "FindChangeInfosBetweenServerSeqs/after", "UpdateClientInfoAfterPushPull/before",
+	"FindClosestSnapshotInfo/before", "FindChangesBetweenServerSeqs/before"}
 
 func genGCRace() *rapid.Generator[GCRace] {
 	return rapid.Custom(func(t *rapid.T) GCRace {
@@ -48,6 +50,7 @@ func genGCRace() *rapid.Generator[GCRace] {
 			Park:  rapid.IntRange(0, len(gcParkNames)-1).Draw(t, "park"),
 			BReqs: rapid.IntRange(1, 3).Draw(t, "breqs"),
 			Extra: rapid.IntRange(0, 3).Draw(t, "extra"),
+			Snap:  max(0, rapid.IntRange(-2, 3).Draw(t, "snap")),
 		}
 	})
 }
@@ -59,6 +62,9 @@ func runGCRace(c GCRace) (fail *kit.Failure, ev map[string]int, hist []string) {
 	ctx, cancelAll := context.WithTimeout(context.Background(), 60*gotime.Second)
 	defer cancelAll()
 	proj := s.Project(1000, 1000, "c16gc")
+	if c.Snap > 0 {
+		proj = s.Project(1000, int64(c.Snap), "c16gc")
+	}
 	dk := key.Key(world.FreshDocKey("c16gc"))
 	defer s.DB.SetHook(nil)
 
@@ -143,6 +149,17 @@ func runGCRace(c GCRace) (fail *kit.Failure, ev map[string]int, hist []string) {
 		if f := syncOf(st.n, st.p); f != nil {
 			return f, ev, hist
 		}
+	}
+	if c.Snap > 0 {
+		// C falls behind the snapshot threshold (it has seen R): its parked request is answered by a snapshot
+		for i := 0; i < c.Snap+1; i++ {
+			_ = upd(A, func(r *yjson.Object) { r.SetInteger("y", i) })
+			if f := syncOf("A", A); f != nil {
+				return f, ev, hist
+			}
+		}
+		s.BE.Cache.Snapshot.Purge()
+		ev["snapshot_variant"]++
 	}
 	garbageBefore := C.d.GarbageLen()
 
